@@ -90,7 +90,9 @@ impl ReadSubsetOption {
             packs.shuffle(rng);
             packs.retain(|p| {
                 let p_size = u64::from(p.pack_size());
-                if size > p_size {
+                // a pack which exactly fits the remaining size is read, too: "100%" (or the total
+                // size) must read every pack
+                if size >= p_size {
                     size = size.saturating_sub(p_size);
                     true
                 } else {
